@@ -4,6 +4,8 @@ import (
 	"crypto/sha256"
 	"encoding/hex"
 	"fmt"
+	libos "github.com/pgavlin/dawn/lib/os"
+	libsh "github.com/pgavlin/dawn/lib/sh"
 	"os"
 	"path/filepath"
 	"sort"
@@ -200,7 +202,8 @@ func (e *Env) VF() *starlarkstruct.Module {
 
 // Builtins returns the predeclared names injected into every BUILD file.
 func (e *Env) Builtins() starlark.StringDict {
-	return starlark.StringDict{"vf": e.VF()}
+	// like the CLI, which predeclares its os, sh and json modules
+	return starlark.StringDict{"vf": e.VF(), "os": libos.Module, "sh": libsh.Module}
 }
 
 // LogEntry is one line of the execution log.
